@@ -13,6 +13,12 @@ Streams
              vs `runTr`; oracle: calls of counting functions vs a reference interpreter that
              computes every distinct wrapper once.
   tagmapper  the histogram based tagger of pymbolic/mapper/cse_tagger.py (oracle only).
+  tally      end to end: tag, evaluate ALL tagged expressions with one evaluator whose numbers
+             (variables AND constants) count the arithmetic performed on them and whose operation
+             handlers are logged: handler log, operation tally and calls vs the Lean counting
+             evaluator (`evalCnt` / `c12TagRun`), and the structural reference "every distinct
+             operation once" vs `c12PlanL` / `c12RefTally`; oracle: no operation class is
+             performed more than once (theorem `tagged_ops_once`).
 """
 from __future__ import annotations
 
@@ -193,6 +199,7 @@ class Tally:
     def __init__(self):
         self.n = {}
         self.calls = []
+        self.nodes = []
 
     def bump(self, k):
         self.n[k] = self.n.get(k, 0) + 1
@@ -266,9 +273,10 @@ def counting_env(env, t):
     return res
 
 
-def reference_counts(sxs, env, classify):
+def reference_counts(sxs, env, classify, count_consts=False):
     """plain Python computation of every input expression in which each distinct operation
-    (`classify` says which operations are the same) is performed once; returns the tally"""
+    (`classify` says which operations are the same) is performed once; returns the tally
+    (`count_consts`: integer constants are counting numbers too, so EVERY operation is counted)"""
     t = Tally()
     cenv = counting_env(env, t)
     memo = {}
@@ -276,7 +284,7 @@ def reference_counts(sxs, env, classify):
     def ev(s):
         h = s[0]
         if h == "Int":
-            return int(s[1])
+            return Cnt(Fraction(int(s[1])), t) if count_consts else int(s[1])
         if h == "Var":
             return cenv[s[1]]
         key = classify(s)
@@ -302,9 +310,74 @@ def reference_counts(sxs, env, classify):
         else:
             raise KeyError(h)
         memo[key] = acc
+        t.nodes.append(s)
         return acc
     vals = [ev(s) for s in sxs]
     return t, vals
+
+
+def exceeds(got, want) -> bool:
+    """some kind of operation, or some call, is performed more often in `got` than in `want`"""
+    if any(got.n.get(k, 0) > want.n.get(k, 0) for k in got.n):
+        return True
+    rest = list(want.calls)
+    for c in got.calls:
+        if c in rest:
+            rest.remove(c)
+        else:
+            return True
+    return False
+
+
+KIND_OF_HEAD = {"Sum": "add", "Product": "mul", "Quotient": "div", "Power": "pow"}
+TALLY_KINDS = ("add", "mul", "div", "floordiv", "mod", "pow", "call")
+
+
+def structural_plan(sxs, classify):
+    """value-free reference: the operation nodes of the inputs in evaluation order, one per class
+    of `classify` (an operation whose class has been met is not performed again and its operands
+    are not looked at)"""
+    seen = set()
+    plan = []
+
+    def walk(s):
+        h = s[0]
+        if h in ("Int", "Var"):
+            return
+        key = classify(s)
+        if key in seen:
+            return
+        if h in ("Sum", "Product"):
+            for c in s[1:]:
+                walk(c)
+        elif h in ("Quotient", "Power"):
+            walk(s[1]); walk(s[2])
+        elif h == "Call":
+            walk(s[1])
+            for c in s[2]:
+                walk(c)
+        else:
+            raise KeyError(h)
+        seen.add(key)
+        plan.append(s)
+    for s in sxs:
+        walk(s)
+    return plan
+
+
+def structural_tally(nodes):
+    """additions, multiplications, … the handlers of these operation nodes perform themselves:
+    a sum of n operands is n additions (`sum(...)` starts from 0), a product n multiplications"""
+    n = dict.fromkeys(TALLY_KINDS, 0)
+    for s in nodes:
+        h = s[0]
+        if h in ("Sum", "Product"):
+            n[KIND_OF_HEAD[h]] += len(s) - 1
+        elif h == "Call":
+            n["call"] += 1
+        else:
+            n[KIND_OF_HEAD[h]] += 1
+    return n
 
 
 def observed_counts(tagged, env):
@@ -436,6 +509,7 @@ class TagStream(Stream):
     name = "tag"
     _n_sharing = 0           # cases in which the operation count was compared
     _n_repeated = 0          # … of which the input repeats an operation
+    _n_collapsed = 0         # … fewer operations than one per one-level class were performed
 
     def cases(self, rng, tier):
         n = 2400 if tier == "quick" else 40000
@@ -537,11 +611,16 @@ class TagStream(Stream):
         plain, _ = reference_counts(in_sx, env, lambda s: object())     # nothing shared
         if plain.n != want.n:
             TagStream._n_repeated += 1
-        if got.n != want.n or sorted(got.calls) != sorted(want.calls):
+        # performing an operation class more than once is the violation; performing FEWER than one
+        # per one-level class is not (theorem tagged_ops_once / tagged_tally_onelevel_cex: two
+        # repeated classes that differ in the operand order of a nested sum get equal wrappers)
+        if exceeds(got, want):
             return Failure("operation-repeated",
                            f"one evaluator over all tagged expressions performs {got.n}, each "
                            f"distinct operation of the input once is {want.n}", pl)
-        if want_rec.n != want.n:
+        if got.n != want.n:
+            TagStream._n_collapsed += 1
+        if got.n != want_rec.n:
             return Failure("nested-commuted-operands-not-merged",
                            f"performed {got.n}; with operands compared up to order recursively "
                            f"the distinct operations are {want_rec.n}", pl)
@@ -571,6 +650,7 @@ class TagStream(Stream):
         acc["calls_logged"] = acc.get("calls_logged", 0) + io.count("(call ")
         acc["operation_counts_compared"] = TagStream._n_sharing
         acc["operation_counts_compared_with_repeats"] = TagStream._n_repeated
+        acc["fewer_than_one_per_onelevel_class"] = TagStream._n_collapsed
         if any("CSE" in s for s in pl["exprs"]):
             acc["with_preexisting_wrappers"] = acc.get("with_preexisting_wrappers", 0) + 1
         nt = acc.setdefault("node_types", {})
@@ -1175,6 +1255,264 @@ class TagMapperStream(Stream):
 # }}}
 
 
+# {{{ end to end: the operation tally of one evaluator over all tagged expressions
+
+def make_tally_eval(cenv, t, nodes):
+    """the real EvaluationMapper with (1) integer constants turned into counting numbers, so that
+    every arithmetic operation is counted, and (2) the operation handlers logged as they return"""
+    from pymbolic.mapper.evaluator import EvaluationMapper
+
+    def logged(name):
+        def handler(self, expr):
+            r = getattr(EvaluationMapper, name)(self, expr)
+            nodes.append(expr)
+            if isinstance(r, (int, Fraction)) and not isinstance(r, bool):
+                r = Cnt(Fraction(r), t)       # the 0 / 1 of an empty sum / product counts too
+            return r
+        return handler
+
+    class TallyEval(EvaluationMapper):
+        def map_constant(self, expr):
+            if isinstance(expr, (int, Fraction)) and not isinstance(expr, bool):
+                return Cnt(Fraction(expr), t)
+            return expr
+    for name in ("map_sum", "map_product", "map_quotient", "map_floor_div", "map_remainder",
+                 "map_power", "map_call"):
+        setattr(TallyEval, name, logged(name))
+    return TallyEval(cenv)
+
+
+def tally_env(rng):
+    def num():
+        if rng.random() < 0.5:
+            return rng.choice([-3, -2, -1, 1, 2, 3, 4])
+        return Fraction(rng.choice([-5, -3, -1, 1, 2, 5, 7]), rng.randint(1, 4))
+    env = {v: num() for v in ("x", "y", "z")}
+    env["i"] = rng.randint(-2, 3)
+    env["f"] = Func("f")
+    env["g"] = Func("g")
+    return env
+
+
+def collapse_lists(rng):
+    """operations that differ only in the operand order of a NESTED sum / product, each possibly
+    repeated: their keys differ (the operands are compared as written) but their canonical
+    wrappers can coincide"""
+    leaves = [p.Variable(v) for v in ("x", "y", "z")] + [2, 3]
+    kids = rng.sample(leaves, rng.randint(2, 3))
+    inner = rng.choice([p.Sum, p.Product])
+    rot = kids[1:] + kids[:1]
+    a, b = inner(tuple(kids)), inner(tuple(rot))
+    other = rng.choice(leaves)
+    kind = rng.randrange(7)
+
+    def outer(x):
+        if kind == 0:
+            return p.Product((x, other))
+        if kind == 1:
+            return p.Sum((other, x))
+        if kind == 2:
+            return p.Call(p.Variable("f"), (x,))
+        if kind == 3:
+            return p.Power(x, 2)
+        if kind == 4:
+            return p.Quotient(x, other)
+        if kind == 5:
+            return p.Quotient(other, x)
+        return p.Call(p.Variable("g"), (other, x))
+    oa, ob = outer(a), outer(b)
+    if rng.random() < 0.3:          # one level deeper
+        oa, ob = p.Sum((oa, 1)), p.Sum((ob, 1))
+    es = [oa] * rng.randint(1, 2) + [ob] * rng.randint(1, 2)
+    if rng.random() < 0.5:
+        rng.shuffle(es)
+    if rng.random() < 0.3:
+        es.append(p.Product((oa, ob)))
+    return es
+
+
+def _q(v):
+    v = Fraction(v)
+    return [A("q"), v.numerator, v.denominator]
+
+
+def sx_list(head, items):
+    return [A(head)] + list(items)
+
+
+class TallyStream(Stream):
+    name = "tally"
+    _n_exact = 0
+    _n_fewer = 0
+
+    def cases(self, rng, tier):
+        n = 1500 if tier == "quick" else 25000
+        for i in range(n):
+            es = collapse_lists(rng) if i % 5 == 4 else SharedGen(rng, "frag").lists()
+            env = tally_env(rng)
+            if not all(is_safe(e, env) for e in es):
+                continue
+            yield {"env": dumps(env_to_sx(env)), "exprs": [dumps(expr_to_sx(e)) for e in es]}
+        ops = small_ops()
+        env = {"x": 3, "y": Fraction(1, 2), "z": -2, "f": Func("f")}
+        envs = dumps(env_to_sx(env))
+        pairs = list(itertools.product(ops, ops))
+        if tier == "quick":
+            pairs = [pr for k, pr in enumerate(pairs) if k % 3 == 0]
+        for a, b in pairs:
+            yield {"env": envs, "exprs": [dumps(expr_to_sx(a)), dumps(expr_to_sx(b))]}
+        z = p.Variable("z")
+        for a in ops:
+            for o in (p.Sum((a, z)), p.Product((z, a)), p.Call(p.Variable("f"), (a,)), p.Power(a, 2)):
+                yield {"env": envs, "exprs": [dumps(expr_to_sx(e)) for e in (o, a, o)]}
+        # the two witnesses of the theorems
+        a, b, c = (p.Variable(v) for v in "abc")
+        e0, e1 = p.Product((p.Sum((a, b)), c)), p.Product((p.Sum((b, a)), c))
+        env3 = dumps(env_to_sx({"a": 1, "b": 2, "c": 3}))
+        for es in ([e0, e0, e1, e1], [e0, p.Product((c, p.Sum((b, a))))], [e0, e0, e1], [e0, e1, e1, e0]):
+            yield {"env": env3, "exprs": [dumps(expr_to_sx(e)) for e in es]}
+
+    def request(self, pl):
+        return f"(cse-tag-tally {pl['env']} ({' '.join(pl['exprs'])}))"
+
+    def _inputs(self, pl):
+        env = sx_to_env(loads(pl["env"]))
+        return [sx_to_expr(loads(s)) for s in pl["exprs"]], env
+
+    def _run(self, tagged, env):
+        """evaluate all tagged expressions with ONE instrumented evaluator"""
+        t = Tally()
+        nodes = []
+        m = make_tally_eval(counting_env(env, t), t, nodes)
+        for e in tagged:
+            m(e)
+        return t, nodes
+
+    def run_impl(self, pl):
+        from pymbolic.cse import tag_common_subexpressions
+        exprs, env = self._inputs(pl)
+        in_sx = [loads(s) for s in pl["exprs"]]
+        try:
+            tagged = tag_common_subexpressions(exprs)
+        except RecursionError:
+            raise
+        except Exception as ex:
+            return tag_err_sx(ex)
+        plan = structural_plan(in_sx, onelevel_class)
+        ref = structural_tally(plan)
+        try:
+            t, nodes = self._run(tagged, env)
+            run = [A("run"), sx_list("nodes", [expr_to_sx(n) for n in nodes]),
+                   sx_list("tally", [t.n.get(k, 0) for k in ("add", "mul", "div", "floordiv", "mod", "pow")]
+                           + [sum(v for k, v in t.n.items() if k.startswith("call:"))]),
+                   sx_list("calls", [[name] + [_q(v) for v in vals] for name, vals in t.calls])]
+        except RecursionError:
+            raise
+        except Exception as ex:
+            run = [A("raised"), A(type(ex).__name__)]
+        return dumps([A("ok"), run, sx_list("ref", [ref[k] for k in TALLY_KINDS]), sx_list("plan", plan)])
+
+    def agree(self, model, impl, pl):
+        if model == impl:
+            return "ok"
+        try:
+            mo, io = loads(model), loads(impl)
+        except Exception:
+            return "diff"
+        if not (isinstance(mo, list) and isinstance(io, list) and mo and io
+                and mo[0] == "ok" and io[0] == "ok" and len(mo) == 4 and len(io) == 4):
+            return "diff"
+        if mo[2] != io[2] or mo[3] != io[3]:
+            return "diff"                     # reference tally / plan: always comparable
+        mrun, irun = mo[1], io[1]
+        if mrun[0] == "noclaim":
+            return "trivial"                  # floats reached: the exact model abstains
+        if irun[0] == "raised":
+            if mrun[0] == "raised":
+                return "ok"
+            # the counting numbers of the harness refuse non-integer / huge exponents
+            return "trivial" if len(irun) > 1 and irun[1] == "OverflowError" else "diff"
+        if mrun[0] != "run":
+            return "diff"
+        if mrun[1] != irun[1] or mrun[2] != irun[2]:
+            return "diff"
+        mc, ic = mrun[3][1:], irun[3][1:]
+        if len(mc) != len(ic):
+            return "diff"
+        for a, b in zip(mc, ic):
+            if a[0] != b[0] or len(a) != len(b):
+                return "diff"
+            for x, y in zip(a[1:], b[1:]):
+                if x != "?" and x != y:       # `?`: int / int is a float in the model
+                    return "diff"
+        return "ok"
+
+    def oracle(self, pl):
+        """theorem `tagged_ops_once` on the real code: no operation class (one-level classifier) is
+        performed more than once; never more than the reference, never fewer than the recursive
+        reference"""
+        from pymbolic.cse import tag_common_subexpressions
+        exprs, env = self._inputs(pl)
+        in_sx = [loads(s) for s in pl["exprs"]]
+        if not all(in_fragment(s) for s in in_sx):
+            return None
+        try:
+            tagged = tag_common_subexpressions(exprs)
+        except Exception as ex:
+            return Failure("tagging-raises-on-fragment", repr(ex), pl)
+        try:
+            t, nodes = self._run(tagged, env)
+        except Exception:
+            return None          # an operand fails to evaluate: nothing to count
+        got = dict.fromkeys(TALLY_KINDS, 0)
+        for k, v in t.n.items():
+            got["call" if k.startswith("call:") else k] += v
+        want = structural_tally(structural_plan(in_sx, onelevel_class))
+        want_rec = structural_tally(structural_plan(in_sx, recursive_class))
+        # the handlers that ran stand for exactly the arithmetic that was counted
+        if structural_tally([expr_to_sx(n) for n in nodes]) != got:
+            return Failure("handler-log-and-count-differ",
+                           f"handlers {structural_tally([expr_to_sx(n) for n in nodes])}, counted {got}", pl)
+        if any(got[k] > want[k] for k in TALLY_KINDS):
+            return Failure("operation-repeated",
+                           f"one evaluator over all tagged expressions performs {got}, each "
+                           f"distinct operation of the input once is {want}", pl)
+        if got == want:
+            TallyStream._n_exact += 1
+        else:
+            TallyStream._n_fewer += 1
+        if got != want_rec:
+            return Failure("nested-commuted-operands-not-merged",
+                           f"performed {got}; with operands compared up to order recursively "
+                           f"the distinct operations are {want_rec}", pl)
+        return None
+
+    def shrink(self, pl):
+        ex = pl["exprs"]
+        for i in range(len(ex)):
+            if len(ex) > 1:
+                yield {**pl, "exprs": ex[:i] + ex[i + 1:]}
+        for i in range(len(ex)):
+            for s in sx_shrinks(loads(ex[i])):
+                yield {**pl, "exprs": ex[:i] + [dumps(s)] + ex[i + 1:]}
+
+    def nontrivial_key(self, pl, model, impl):
+        if "(run " not in impl or "(CSE" not in impl:
+            return None
+        return " ".join(pl["exprs"]) + pl["env"]
+
+    def stats(self, pl, mo, io, acc):
+        k = ("run" if "(run " in io else "raised" if "(raised" in io else "err")
+        acc.setdefault("outcomes", {})
+        acc["outcomes"][k] = acc["outcomes"].get(k, 0) + 1
+        if "(CSE" in io:
+            acc["with_wrappers"] = acc.get("with_wrappers", 0) + 1
+        acc["exactly_the_onelevel_reference"] = TallyStream._n_exact
+        acc["fewer_than_one_per_onelevel_class"] = TallyStream._n_fewer
+
+# }}}
+
+
 # {{{ probes: known findings replayed on the real code
 
 def probe_findings():
@@ -1232,7 +1570,7 @@ PROP = Prop(
     title="Common-subexpression handling keeps meaning and shares work",
     lean_targets=["PV.Properties.C12"],
     streams=[TagStream(), TagTreeStream(), UseCountStream(), WrapStream(), WrapArrayStream(), TraceStream(),
-             TagMapperStream()],
+             TagMapperStream(), TallyStream()],
     probes=[probe_findings],
     trusted_base=[
         "Lean 4.33 kernel; axioms propext, Classical.choice, Quot.sound only",
@@ -1242,6 +1580,9 @@ PROP = Prop(
         "Python dict / frozenset keys modelled as insertion-ordered association lists under the "
         "model of Python == (PV/Model/PyEq.lean)",
         "harness/sexp.py serialisation; harness/oracles/pyeval.py (independent interpreter)",
+        "PV/Model/CseTally.lean (`evalCnt`, `c12Plan`) as a model of the same evaluator observed with "
+        "counting numbers / logged handlers and of the oracle's reference, validated on every run by "
+        "the tally stream",
         "floats are outside the exact model (model abstains); object arrays and multivectors are "
         "checked on the real code only",
     ],
@@ -1252,7 +1593,9 @@ PROP = Prop(
                "checked on the real code with an independent interpreter and counting values.",
     level_note="Value and sharing theorems are stated for expressions on which Python == is "
                "structural identity (no bool/float constants, keyword calls, Python lists); "
-               "the sharing theorem for the fragment named by the property.",
+               "the sharing and end-to-end theorems for the fragment named by the property; "
+               "'exactly the one-level reference tally' needs pairwise distinct canonical wrappers "
+               "(tagged_ops_reference_partial), 'at most once per key' does not (tagged_ops_once).",
     technique="Lean 4 proofs about a stateful traversal model + differential correspondence + "
               "operation counting with instrumented values and functions",
     design_ref="DESIGN.md §4 C12",
